@@ -3,7 +3,8 @@
    Model: BHS.Tokens (the tokens table of database/sql/tokens.go, TokenService.GetToken, the auth
    middleware / RequireAdmin decisions and the websocket connect check).  Every statement quantifies
    over every admin token value, every token value and every operation sequence
-   (create / revoke with any credential, authenticate over HTTP or websocket, restart). *)
+   (create / revoke with any credential, authenticate over HTTP or websocket, restart, create / revoke whose
+   COMMIT fails, an authentication overlapping a revocation). *)
 From Coq Require Import String List.
 From BHS Require Import Tokens TokensProofs.
 Import ListNotations.
@@ -39,13 +40,13 @@ Proof. exact issuedb_iff. Qed.
 
 (* creating or revoking one token never changes the validity of any other *)
 Theorem C10_others_unaffected : forall admin st o t',
-  (forall c t, o = Create c t \/ o = Revoke c t -> t' <> t) ->
+  target o <> Some t' ->
   get_token admin (step admin st o) t' = get_token admin st t'.
 Proof. exact others_unaffected. Qed.
 
 (* create / revoke attempted without the admin token, authentications and restarts change nothing *)
 Theorem C10_non_admin_ops_change_nothing : forall admin st o,
-  (forall t, o <> Create admin t /\ o <> Revoke admin t) -> step admin st o = st.
+  (forall t, o <> Create admin t /\ o <> Revoke admin t /\ o <> Race t) -> step admin st o = st.
 Proof. exact non_admin_ops_change_nothing. Qed.
 
 (* the configured admin token always authenticates as admin ... *)
@@ -84,6 +85,45 @@ Proof. exact fresh_created_distinct. Qed.
 Theorem C10_table_nodup : forall admin ops st, NoDup st -> NoDup (run admin st ops).
 Proof. exact table_nodup. Qed.
 
+(* ---- storage failures: a create / revoke whose COMMIT fails changes nothing, does not answer success, and
+   every later answer is the one of the history without the failed operations ---- *)
+Theorem C10_failed_op_changes_nothing : forall admin st o, is_failed o = true -> step admin st o = st.
+Proof. exact failed_op_changes_nothing. Qed.
+
+Theorem C10_failed_op_not_success : forall admin st o, is_failed o = true ->
+  outcome_of admin st o = OFailed \/ outcome_of admin st o = ODenied.
+Proof. exact failed_op_not_success. Qed.
+
+Theorem C10_failed_ops_erasable : forall admin ops st,
+  run admin st ops = run admin st (filter (fun o => negb (is_failed o)) ops).
+Proof. exact failed_ops_erasable. Qed.
+
+(* ---- overlapping operations (linearisation reading: a sequence lists the operations in the order of their
+   single shared-table access, which lies between invocation and response; an operation invoked after the
+   response of another one is later in the sequence).  Once a revocation of t has taken effect, every
+   authentication of t that takes effect later - in particular every one that starts after the revocation
+   answered - is refused on both transports, until t is created again; the authentication that overlaps the
+   revocation ([Race t]) may answer either way. ---- *)
+Theorem C10_after_revoke_refused : forall admin pre o mid t,
+  t <> admin -> revokes admin o t -> ~ In (Create admin t) mid ->
+  let st := run admin [] (pre ++ o :: mid) in
+  outcome_of admin st (AuthHttp t) = ORole NoTok /\ outcome_of admin st (AuthWs t) = OWs false.
+Proof. exact after_revoke_refused. Qed.
+
+Theorem C10_race_inflight_allowed : forall admin pre t r,
+  outcome_of admin (run admin [] pre) (Race t) = ORace r -> race_allowed admin pre t r.
+Proof. exact race_inflight_allowed. Qed.
+
+Theorem C10_race_allowed_cases : forall admin pre t r, race_allowed admin pre t r ->
+  r = spec_role admin pre t \/ (t <> admin /\ r = NoTok) \/ (t = admin /\ r = Admin).
+Proof. exact race_allowed_cases. Qed.
+
+Print Assumptions C10_failed_op_changes_nothing.
+Print Assumptions C10_failed_op_not_success.
+Print Assumptions C10_failed_ops_erasable.
+Print Assumptions C10_after_revoke_refused.
+Print Assumptions C10_race_inflight_allowed.
+Print Assumptions C10_race_allowed_cases.
 Print Assumptions C10_main.
 Print Assumptions C10_issued_is_user.
 Print Assumptions C10_every_position.
